@@ -176,6 +176,54 @@ def source_chain_case(rng):
     w.emit('dump')
     return w.lines
 
+UUIDISH = ['aaaaaaaa-bbbb-cccc-dddd-eeeeeeeeeeee', '12345678-1234-1234-1234-123456789abc', '0a1b2c3d-aaaa-bbbb-cccc-0123456789ab']
+
+def uuid_named_case(rng):
+    """entities whose legal NAME has the shape of an id (8-4-4-4-12), in the name-keyed containers — nested sources and sections at
+    depth 2 and 3, root sources, arrays, tags, frames, groups of a block — attached to holders BY HANDLE and deleted BY NAME through
+    their parent: the name is a name there, the victim and its subtree go, no holder lists them any more"""
+    w = World(rng, names=PLAIN)
+    w.open('ow')
+    b = w.mk('B', None, name='b')
+    holders = [w.mk('A', b, name='arr', extra=[2]), w.mk('T', b, name='tag'), w.mk('G', b, name='grp')]
+    kind = rng.choice(['O', 'O', 'S', rng.choice(['A', 'D', 'T', 'G'])])
+    U = UUIDISH[:]; rng.shuffle(U)
+    if kind in ('O', 'S'):
+        root = w.mk(kind, b if kind == 'O' else None, name=rng.choice([U[2], 'root']))
+        child = w.mk(kind, root, name=U[0])
+        grand = w.mk(kind, child, name=rng.choice([U[1], 'leaf']))
+        sib = w.mk(kind, root, name=U[1])
+        for e in (child, grand, sib, root):
+            for h in rng.sample(holders, rng.randint(0, 2)):
+                if kind == 'O': w.emit('link src %s handle %s' % (h.slot, e.slot))
+                else: w.emit('single metadata %s handle %s' % (h.slot, e.slot))
+        victims = [child, sib] + ([grand] if len(grand.name) == 36 else []) + ([root] if len(root.name) == 36 else [])
+    else:
+        es = [w.mk(kind, b, name=U[0]), w.mk(kind, b, name='plain'), w.mk(kind, b, name=U[1])]
+        g = holders[2]
+        for e in es:
+            if kind in REL_OF and rng.random() < 0.7: w.emit('link %s %s handle %s' % (REL_OF[kind], g.slot, e.slot))
+            if kind == 'A' and rng.random() < 0.7: w.emit('link ref %s handle %s' % (holders[1].slot, e.slot))
+        victims = [es[0], es[2]]
+    if rng.random() < 0.4: w.reopen('rw')
+    rng.shuffle(victims)
+    for v in victims[:rng.randint(1, 2)]:
+        if not v.alive: continue
+        below, frontier = [], [v.slot]
+        while frontier:
+            nxt = [e for e in w.ents if e.alive and e.parent in frontier]
+            below += nxt; frontier = [e.slot for e in nxt]
+        w.emit('has %s %s name %s' % (v.kind, v.parent, S(v.name)))
+        w.emit('dump')
+        w.delete(v, 'name')
+        w.emit('dump')
+        w.emit('has %s %s name %s' % (v.kind, v.parent, S(v.name)))
+        w.emit('valid %s deleted' % v.slot)
+        for e in below: w.emit('valid %s deleted' % e.slot)
+    w.reopen(rng.choice(['ro', 'rw']))
+    w.emit('dump')
+    return w.lines
+
 def frame_case(rng):
     """data frames that are used — as group members, as the frame of data-frame dimensions of several arrays, with sources and metadata —
     deleted by name, id or handle: no group lists them any more, no dimension hands them out, their handles are invalid"""
@@ -391,6 +439,7 @@ def cases(tier, seed, rng):
     out = [Case(with_hdump(history(rng, tier), rng, 0.5), 'gen:graph') for _ in range(n)]
     out += [Case(with_hdump(frame_case(rng), rng, 0.5), 'gen:frames-in-use') for _ in range(4 if tier == 'quick' else 80)]
     out += [Case(with_hdump(source_chain_case(rng), rng, 0.3), 'gen:source-chain') for _ in range(10 if tier == 'quick' else 200)]
+    out += [Case(with_hdump(uuid_named_case(rng), rng, 0.3), 'gen:uuid-shaped-names') for _ in range(10 if tier == 'quick' else 150)]
     out += [Case(many_holders_case(rng, k), 'gen:many-holders') for k in ((40,) if tier == 'quick' else (33, 40, 64, 130))]
     out += [Case(with_hdump(holder_case(rng), rng, 0.5), 'gen:holder-fields') for _ in range(8 if tier == 'quick' else 150)]
     # link paths around 256 characters ("/data/b/data_arrays/<name>", "/data/b/tags/<name>/references/<id>", "/data/b/groups/<name>/data_arrays/<id>")
